@@ -5,6 +5,20 @@ ENGINES = {
              "kind": "explicit-state / bounded-exhaustive exploration of the real crate; every trace runs in a freshly forked child (or on a fresh thread of one, where no process-global state is involved)"},
 }
 
+ENGINES["qsx"] = {"dir": "engines/qx", "target": "target-qsx", "bin": "qx", "args": [],
+    "kind": "sequential explicit-state search over the repository's queue source text (imported by build.rs) running on inspecting wrappers of the real st3/crossbeam types; explored histories are replayed on the real crate (conformance)"}
+ENGINES["loomq"] = {"dir": "engines/qx", "target": "target-loomq", "bin": "qx", "args": ["--no-default-features", "--features", "loomq"], "rustflags": "--cfg st3_loom", "real_impl": True,
+    "kind": "loom: all interleavings up to a preemption bound of the repository's queue / bean-factory source text; real st3 built with --cfg st3_loom; crossbeam/dashmap replaced by linearizable shims on loom::sync::Mutex"}
+
+def qsx(*scenarios):
+    return {"engine": "qsx", "scenarios": list(scenarios)}
+
+def loomq(*scenarios):
+    return {"engine": "loomq", "scenarios": list(scenarios)}
+
+IMPORT = "the queue / bean-factory logic explored is the repository's own source text (only `use` lines, the random draw and one static are rewritten by engines/qx/build.rs, which fails loudly if an expected line is missing)"
+SHIMS = "crossbeam-deque Injector, crossbeam-skiplist SkipMap and dashmap are trusted to be linearizable (replaced by Mutex-based shims under loom); st3 is the real crate under loom"
+
 REAL = "every trace is executed on the real open-coroutine-core crate (built from /repo's working tree with --features verif)"
 CLOCK = "time is a virtual clock owned by the harness (hook in common::now and in the runtime's own blocking primitives)"
 
@@ -65,5 +79,59 @@ CHECKS = {
         "level_note": "get_time_limit is reached through the hooked setsockopt + recv/send_time_limit on a fresh socket per value",
         "rule": "one case per (total, slice) / (now, duration) / (tv_sec, tv_usec, option); every case is distinct",
         "assumptions": [REAL, CLOCK],
+    },
+    "C03": {
+        "parts": [loomq("loom.c03"), qsx("q.c03seq")],
+        "design_ref": "DESIGN.md §5 C03",
+        "technique": "loom exploration of all interleavings (preemption bound 2/3) of 2-3 threads over the imported queue sources + sequential explicit-state search with drain probe",
+        "level_text": "every interleaving within the preemption bound of each thread program, for both queue types, ends with: no item twice, popped + drained = pushed, shared len() = items held; plus the same oracle in every sequentially reachable state up to the depth bound",
+        "level_note": "2-3 threads, <= 3 operations each; each local queue used by one thread only (the contract the property states)",
+        "rule": "loom: one evaluation per explored schedule, distinct = distinct final observation tuples; sequential: BFS with dedup on ground-truth queue contents + reported lengths",
+        "assumptions": [IMPORT, SHIMS],
+    },
+    "C04": {
+        "parts": [qsx("q.c04")],
+        "design_ref": "DESIGN.md §5 C04",
+        "technique": "explicit-state BFS over push/pop/steal histories on the imported queue sources with an operation budget per call (non-termination as a deterministic observation)",
+        "level_text": "every distinct reachable queue state (ground-truth contents + cached lengths) up to the depth bound is visited for 2-3 local queues and capacities 1-4, and every operation from it must return within the budget",
+        "level_note": "depth 7 (quick) / 9 (thorough); pool-level submission termination is covered by the pool scenarios of C01/C12",
+        "rule": "BFS with canonical-state dedup; a state is non-trivial at depth >= 3",
+        "assumptions": [IMPORT, "wrappers around the real st3/crossbeam types only count operations and shadow item positions"],
+    },
+    "C05": {
+        "parts": [qsx("q.c05")],
+        "design_ref": "DESIGN.md §5 C05",
+        "technique": "explicit-state BFS with priority-rich alphabets (incl. i64 extremes) on the imported queue sources; oracle on ground-truth container contents",
+        "level_text": "in every reachable state, the item a pop returns is checked against the real contents of the queue it came from: no strictly higher-priority item that entered earlier is still waiting, FIFO among equals",
+        "level_note": "reading taken: 'that same queue' is the container the item is in now (shared or one local); pool/scheduler start order is covered in C10/C11 scenarios",
+        "rule": "BFS with canonical-state dedup; a state is non-trivial at depth >= 3",
+        "assumptions": [IMPORT],
+    },
+    "C06": {
+        "parts": [qsx("q.c06")],
+        "design_ref": "DESIGN.md §5 C06",
+        "technique": "explicit-state BFS (idle-pop oracle in every reachable state) + exhaustive injection of a shared item before pop j for every j < 130 (61-pop bound)",
+        "level_text": "every reachable state is probed: a truly empty local queue next to waiting work must obtain it; the 61 bound is checked for every injection point j, both queue types, three relative priorities",
+        "level_note": "tick wrap at 2^32 pops is not reachable by enumeration",
+        "rule": "BFS with canonical-state dedup + one case per (queue type, refill level, shared priority, injection point)",
+        "assumptions": [IMPORT],
+    },
+    "C26": {
+        "parts": [loomq("loom.c26")],
+        "design_ref": "DESIGN.md §5 C26",
+        "technique": "loom exploration of all interleavings of 2-3 threads' first use of one bean on the imported beans.rs",
+        "level_text": "every interleaving (preemption bound 2/3) of concurrent get_or_default / init_bean on one name: all threads and a later lookup see one address",
+        "level_note": "dashmap replaced by a Mutex-based shim whose entry().or_insert_with() is atomic like dashmap's",
+        "rule": "one evaluation per explored schedule",
+        "assumptions": [IMPORT, SHIMS],
+    },
+    "C01": {
+        "parts": [loomq("loom.c01")],
+        "design_ref": "DESIGN.md §5 C01",
+        "technique": "loom exploration of the queue layer the way the runtime uses it (submitters push into a loop's local task queue) + (pool layer: explicit-state search, see C12/C13 scenarios)",
+        "level_text": "every interleaving within the preemption bound of submitter / owner / thief programs on one local queue handle; loom's cell-causality checker decides whether st3's single-producer contract is respected",
+        "level_note": "queue layer only at the moment",
+        "rule": "one evaluation per explored schedule",
+        "assumptions": [IMPORT, SHIMS],
     },
 }
